@@ -227,4 +227,15 @@ theorem mem_selected (db : Db) (f : Filter) (e : Event) :
   · rintro ⟨r, hr, he, hh, hm⟩
     exact ⟨(r, !db.hidden r && nip01MatchB f (evOf db r)), ⟨⟨r, hr, rfl⟩, by simp [hh, hm]⟩, he⟩
 
+/-! non-vacuity of the hypotheses of `candidates_eq` -/
+def exE1 : Event := { id := "aa", pubkey := "bb", createdAt := 5, kind := 1, tags := [["t", "x"]], content := "c", sig := "cc" }
+def exF1 : Filter := { ids := some ["aa"], tags := some [("t", ["x", "y"])], limit := some 1 }
+example : LowerHex exE1 := ⟨by decide, by decide, by decide⟩
+example : FilterHexOK exF1 := by
+  refine ⟨?_, ?_, ?_⟩
+  · intro l hl x hx; simp [exF1] at hl; subst hl; simp at hx; subst hx; decide
+  · intro l hl; simp [exF1] at hl
+  · intro l hl c hc; simp [exF1] at hl; subst hl; simp at hc; subst hc; exact ⟨'t', rfl, by decide⟩
+example : ((([[exE1]] : List (List Event)).foldl Db.insertBatch {}).candidates [exF1]).map (fun l => l.map (fun c => (c.ms.map (·.id), c.limit))) =
+    some [(["aa"], some 1)] := by decide
 end Moc.C06
